@@ -14,18 +14,7 @@ pub const TS_MIN: i64 = -377705023201;
 pub const TS_MAX: i64 = 253402207200;
 
 pub fn jiff_zone(z: &ZoneSrc) -> Result<TimeZone, String> {
-    let r = guard(|| {
-        if z.class == "posix-string" {
-            TimeZone::posix(std::str::from_utf8(&z.bytes).unwrap())
-        } else {
-            TimeZone::tzif(&z.name, &z.bytes)
-        }
-    });
-    match r {
-        Ok(Ok(tz)) => Ok(tz),
-        Ok(Err(e)) => Err(format!("err: {e}")),
-        Err(p) => Err(format!("panic: {p}")),
-    }
+    crate::loaders::load(z)
 }
 
 pub fn zone_event(az: &AZone, class: &str) -> Value {
@@ -151,6 +140,8 @@ pub fn corpus(a: &Args, rng: &mut Rng, want_bundled: bool) -> Corpus {
     if let Some(o) = only {
         zones.retain(|z| z.name == o);
     }
+    // C18: the selected loader restricts the corpus to what it can serve
+    crate::loaders::init(a, &mut zones);
     Corpus { zones }
 }
 
@@ -218,6 +209,9 @@ pub fn run_c03(a: &Args) {
         };
         out.soft_cut(45_000);
         out.emit(zone_event(&az, &z.class));
+        for e in crate::loaders::lookups(z) {
+            out.emit(e);
+        }
         for (t, cls) in change_points(a, &az, &mut rng) {
             for (n, tag) in around(t) {
                 if let Some(ts) = mkts(n) {
